@@ -247,6 +247,9 @@ func materialise(o *c09Obj) (*sharedObj, string) {
 				return callResult{AST: ast, Err: errStr(err)}
 			}
 		}
+		if p, _, _ := fixtures.SexprCalls(); p == nil {
+			return nil, "the sexpr example grammar does not build"
+		}
 		s.call = mk()
 		s.expect = func(kind, in string) any { return mk()(kind, in) }
 	case "ebnf":
